@@ -241,7 +241,7 @@ def run_obligation(name, tier="quick", seed=0, do_diff=True):
             fl["replay"] = summarize_replay(ans, fl["clause"])
         # differential self-check of the executor against CPython
         if do_diff and ob.kind != "L" and ob.samples:
-            rec["diff"] = differential(ob, name, seed)
+            rec["diff"] = differential(ob, name, seed, 8 if tier != "quick" else 1)
             # a clause the solver could not decide but which is false on the real code for a sampled input is
             # refuted by that witness (bounded refutation on the real code; never used to *prove* anything)
             for c, vals, ch in rec["diff"].get("clause_false", []):
@@ -291,11 +291,11 @@ def summarize_replay(ans, clause):
     return out
 
 
-def differential(ob, name, seed):
+def differential(ob, name, seed, mult=1):
     from .floatengine import FloatEngine, compare, flatten
     from .interp import PyRaise
 
-    ans = conc().ask({"op": "sample", "ob": name, "n": ob.samples, "seed": seed})
+    ans = conc().ask({"op": "sample", "ob": name, "n": ob.samples * mult, "seed": seed})
     res = {"samples": 0, "mismatch": [], "clause_false": [], "escaped": [], "tries": ans.get("tries")}
     if not ans.get("ok"):
         res["mismatch"].append("concrete runner error: %s" % ans.get("error"))
